@@ -31,7 +31,8 @@ MANIFEST = dict(
          "process shows (C30_partial, C30_parametric_full), a returned workflow's inputs are always the requester's "
          "(C30_no_leak, needs no parametricity), exact and superset hits are sound (C30_exact_hit_sound, "
          "C30_superset_hit_sound). Partial: the full statement is refuted (C30_refuted_nonparametric, finding F30b): "
-         "a constructor that branches on an input gets the graph built while that input was lazy. The stale per-task "
+         "a constructor that branches on an input gets the graph built while that input was lazy; minor finding F30c: "
+         "the type hash ignores the class name (hypothesis hash_type injective). The stale per-task "
          "memo (finding F30) was repaired in /repo and the model follows the repaired code. Model tied to the code by "
          "running generated histories on generated workflow modules and evaluating model and spec in Coq.",
     note="Trusted: Coq kernel + vm_compute; hand-written model; hashes are injective by hypothesis (named in the "
@@ -1048,7 +1049,7 @@ def run(ctx):
                 batches.append(gen_nested_batch(rng, nnest, 10 if not thorough else 24))
                 nnest += 1
         t0 = time.time()
-        results = run_batches(tmp, batches, par=4, deadline=t0 + box, min_histories=5)
+        results = run_batches(tmp, batches, par=4, deadline=t0 + box, min_histories=5 if thorough else 3)
         exec_s = time.time() - t0
         cases, meta = [], []
         dist = {"ops": {}, "shapes": {}, "histories": 0, "observing_ops": 0, "impl_errors": 0, "modules": 0,
